@@ -170,7 +170,9 @@ def add_reads(rng, case, sample, depth, read_len=(80, 300), paired_frac=0.0, ins
             b = sim.hap_read(seq, vs, alleles, min(L - 2, st + l1 + gap), min(L, st + l1 + gap + l2))
             if a is None or b is None:
                 continue
-            for x, fl in ((a, 0x1 | 0x40), (b, 0x1 | 0x80)):  # same orientation: whatshap drops a mate of opposite orientation
+            # same-strand pairs, or proper FR pairs (before fix 8290694 whatshap dropped the opposite-strand mate)
+            fr = rng.random() < 0.5
+            for x, fl in ((a, 0x1 | 0x40 | (0x20 if fr else 0)), (b, 0x1 | 0x80 | (0x10 if fr else 0))):
                 case["reads"].append({"name": name, "start": x[0], "cigar": [list(c) for c in x[1]], "seq": x[2],
                                       "sample": sample, "flag": fl, "mapq": 60})
         else:
